@@ -52,7 +52,7 @@ def child(req, cfg, outfile):
             if entry[0] == fault["at"]:
                 raise OSError(errno.EIO, "injected input/output error", str(entry[2]) if len(entry) > 2 else None)
 
-        def install_with_fault(roots, mode="trace", crash_at=None, half=False, logfile=None, sched_=None):
+        def install_with_fault(roots, mode="trace", crash_at=None, half=False, logfile=None, sched_=None, **_kw):
             return install(roots, mode="sched", logfile=logfile, sched=sched)
         fsgate.install = install_with_fault
         req = dict(req, gate={"mode": "trace"})
